@@ -351,6 +351,11 @@ class ModelDriver:
         if a == "SetFunctional":
             self.get_gene(model, op["g"]).functional = bool(op["b"])
             return None
+        if a == "FixObjective":
+            if any(c.name.startswith("fixed_objective_") for c in model.constraints):
+                raise Skip("objective is fixed already")
+            cobra.util.solver.fix_objective_as_constraint(model)
+            return None
         if a == "Repair":
             model.repair()
             return None
@@ -786,7 +791,9 @@ class ModelDriver:
             nm = glp_get_row_name(prob, i)
             am = self.rmet.get(nm)
             if am is None or nm not in model.metabolites:
-                xrows.append(am if am is not None else nm)      # a row named like a metabolite that is not in the model
+                # a row named like a metabolite that is not in the model; the row of fix_objective_as_constraint
+                # carries the (random) name of the objective
+                xrows.append(am if am is not None else ("fixed_objective" if nm.startswith("fixed_objective_") else nm))
                 continue
             l, u = bounds(glp_get_row_type(prob, i), glp_get_row_lb(prob, i), glp_get_row_ub(prob, i))
             row = rows[am]
